@@ -520,7 +520,7 @@ pub fn run(ctx: &Ctx) {
     ctx.mark_exhaustive(&format!("lists of length 0..={maxlen} and {} strings x all indices / bound pairs / range assignments", strs.len()));
     judge_snippets(ctx, "sequence", &ok, 60);
     ctx.judge_all(bad, Via::Cli, None);
-    let n = ctx.n(20_000, 1_000_000);
+    let n = ctx.n(20_000, 4_000_000);
     let via = if ctx.tier == Tier::Quick { Via::Cli } else { Via::Fast };
     ctx.proptest_tapes("histories", n, 200, via, None, |t| history_case(t, ctx));
 }
